@@ -214,8 +214,12 @@ func readTabixHeader(r io.Reader, idx *Index) error {
 	if err != nil {
 		return fmt.Errorf("tabix: failed to read name lengths: %w", err)
 	}
-	if n <= 0 {
+	if n < 0 {
 		return fmt.Errorf("tabix: invalid name lengths: %d", n)
+	}
+	if n == 0 {
+		// An index without references has no names.
+		return nil
 	}
 	nameBytes := make([]byte, n)
 	_, err = io.ReadFull(r, nameBytes)
